@@ -402,6 +402,40 @@ def _sel_exact(I, ordinal, it):
     return None
 
 
+def task_cleanup_beginning_exact():
+    """Recovery from a corrupt front (C11: 'after a truncated or corrupt element every later valid message is still delivered'):
+    data == c ++ gap ++ rest with |c| == 1, rest beginning with '<' + a known tag and no known-tag opener beginning inside the gap:
+    _cleanup_beginning drops exactly c and the gap -- it never skips the start of a later message."""
+    def task(I, run):
+        b, data0 = make_buffer(I, tags="any")
+        tags = b.fields["allowed_tags"]
+        c, gap, rest, t = I.fresh("first_char", StrS), I.fresh("gap", StrS), I.fresh("rest", StrS), I.fresh("opener_tag", StrS)
+        j = z3.Int("j")
+        run.assume(z3.And(data0 == z3.Concat(c, gap, rest), z3.Length(c) == 1))
+        run.assume(z3.PrefixOf(z3.Concat(z3.StringVal("<"), t), rest))
+        run.assume(z3.Exists([j], z3.And(j >= 0, j < tags.length, z3.Select(tags.elt, j) == VStr(t)), patterns=[z3.Select(tags.elt, j)]))
+        G = z3.Length(gap)
+        tail = z3.SubString(data0, 1, z3.Length(data0) - 1)            # what _cleanup_buffer is to see
+        pos = lambda tagterm: z3.IndexOf(tail, z3.Concat(z3.StringVal("<"), get_s(tagterm)), z3.IntVal(0))
+        run.assume(forall(j, implies(z3.And(j >= 0, j < tags.length), z3.Or(pos(z3.Select(tags.elt, j)) < 0, pos(z3.Select(tags.elt, j)) >= G)),
+                          patterns=[z3.Select(tags.elt, j)]))
+        run.assume(z3.IndexOf(tail, z3.Concat(z3.StringVal("<"), t), z3.IntVal(0)) == G)
+        I.ghost.update(buffer=b, data0=tail, tags_list=tags, gap_len=G, opener_tag=t)
+        I.contracts[CLEANUP_EXACT.key] = CLEANUP_EXACT
+        run.explorer.witness = buf_witness(I, data0, None)
+        f = I.world.functions[(FILE, "Buffer._cleanup_beginning")]
+        I.root_func = f
+        try:
+            I.call(IBound(f, b), [], {})
+        except IRaise as e:
+            run.fail("C11,C02|_cleanup_beginning/raises-nothing", "raised %s" % e)
+            return
+        d1 = cur_data(I, b)
+        run.oblige("C11,C02|_cleanup_beginning/drops-one-character-and-resynchronises-at-the-next-known-opener(no-later-message-is-skipped)", d1 == rest)
+        run.canary("C11|canary[cleanup-beginning-exact]/always-empties", z3.Length(d1) == 0)
+    return task
+
+
 CLEANUP_EXACT = Contract(FILE, "Buffer._cleanup_buffer", loop_selector=_sel_exact)
 
 
